@@ -24,6 +24,7 @@ def run(ctx):
             ("Sim_IndexStampM.cfg", 20 if q else 1000, 12), ("Sim_IndexEdit.cfg", 16 if q else 800, 12)]
     res = ic.tour(ctx, sims, {"idempotence": True, "rebuild": False}, cats, "C11")
     ic.random_histories(ctx, "C11", {"reindex"})
+    ic.edit_loop(ctx, "C11", {"stamp"})
     for x in res[:2]:
         ctx.sample({"behaviour": x["actions"], "commands": x["commands"]})
     ic.finish(ctx, "behaviours = random walks over Index.tla across 3 calendar days, starting from notes already stamped; "
